@@ -1057,7 +1057,7 @@ func execC10(c *vf.Ctx, d *vf.Driver, cs c10Case) {
 	case "refresh":
 		execC10Refresh(c, d, cs)
 	case "float64":
-		execC10Float64(c, cs)
+		execC10Float64(c, d, cs)
 	}
 }
 
@@ -1072,10 +1072,29 @@ func c10Float64Values(bits int) []float64 {
 }
 
 // execC10Float64: DecodeCustom on a caller-built Raw whose member is a Go float64 (the float64 arm
-// of `decode`; not reachable through Parser.Parse).  No model (Wire has no float64): the property is
-// evaluated directly with math/big — accepted ⇔ the value is integral and within the destination
+// of `decode`; not reachable through Parser.Parse).  The exact value (sign, mantissa, exponent) goes
+// to the model op c10.f64int; the property is also evaluated directly with math/big — accepted ⇔ the value is integral and within the destination
 // range, and the stored value is exactly it.
-func execC10Float64(c *vf.Ctx, cs c10Case) {
+// c10F64Wire: the exact value of a float64 as (kind, sign, mantissa, exponent) for Model.Custom.F64
+func c10F64Wire(x float64) vf.Wire {
+	switch {
+	case math.IsNaN(x):
+		return c10Tag(vf.Str("nan"))
+	case math.IsInf(x, 0):
+		return c10Tag(vf.Str("inf"), vf.Bool(x < 0))
+	}
+	b := math.Float64bits(x)
+	neg := b>>63 == 1
+	ef := int64(b>>52) & 0x7ff
+	fr := b & (1<<52 - 1)
+	m, e := fr, int64(-1074)
+	if ef != 0 {
+		m, e = fr|1<<52, ef-1075
+	}
+	return c10Tag(vf.Str("fin"), vf.Bool(neg), vf.BigInt(new(big.Int).SetUint64(m)), vf.Int(e))
+}
+
+func execC10Float64(c *vf.Ctx, d *vf.Driver, cs c10Case) {
 	f := c10FailOf(c)
 	ent := c10EntryByName(cs.Type)
 	if ent == nil || ent.IntBits == 0 {
@@ -1090,6 +1109,28 @@ func execC10Float64(c *vf.Ctx, cs c10Case) {
 	if panicked {
 		f.fail(vf.Violation{Kind: "property", Class: "c10-float64-int-boundary", What: "DecodeCustom panics on a float64 member", Case: cs, Observed: what, Required: "ok or error"})
 		return
+	}
+	// the model of the float64 arm (Model.Custom.decodeF64Int / decodeF64Uint) on the exact value
+	if d != nil {
+		res, derr := d.Call("c10.f64int", []vf.Wire{vf.Int(int64(ent.IntBits)), vf.Bool(ent.Unsigned), c10F64Wire(x)}, StdOracle)
+		if derr != nil {
+			f.fail(vf.Violation{Kind: "correspondence", Class: "c10-driver", What: derr.Error(), Case: cs})
+			return
+		}
+		mo := vf.AsOutcome(res)
+		c.TraceValidated()
+		okM := mo.Tag == "ok"
+		if okM != (err == nil) {
+			f.fail(vf.Violation{Kind: "correspondence", Class: "c10-float64-int-boundary", What: fmt.Sprintf("float64 %v into %s: model/implementation outcome differs", x, ent.Name), Case: cs, Observed: fmt.Sprint(err), Required: c10ModelOutcome(mo)})
+			return
+		}
+		if okM {
+			v := c10ValOf(out.Elem()).Arr[1].Arr[0].Arr[1]
+			if v.Kind != vf.KInt || mo.Val.Kind != vf.KInt || v.Int.Cmp(mo.Val.Int) != 0 {
+				f.fail(vf.Violation{Kind: "correspondence", Class: "c10-float64-int-boundary", What: "float64 arm: stored value differs from the model", Case: cs, Observed: v.Render(), Required: mo.Val.Render()})
+				return
+			}
+		}
 	}
 	lo, hi := new(big.Int), new(big.Int)
 	if ent.Unsigned {
@@ -1163,6 +1204,18 @@ func runC10(c *vf.Ctx) {
 					execC10(c, d, c10Case{Stream: "float64", Type: e.Name, F64: math.Float64bits(x)})
 				}
 				k++
+			}
+		}
+		for i := 0; i < nRandNum/workers && !f.stop(); i++ {
+			// random float64 bit patterns (integral ones around 2^k boundaries are favoured)
+			x := math.Float64frombits(r.U64())
+			if i%2 == 0 {
+				x = math.Ldexp(float64(int64(r.U64()>>11))*vf.Pick(r, []float64{1, -1}), r.Intn(24)-12-40+r.Intn(3)*20)
+			}
+			es := c10Family
+			e := es[r.Intn(len(es))]
+			if e.IntBits != 0 {
+				execC10(c, d, c10Case{Stream: "float64", Type: e.Name, F64: math.Float64bits(x)})
 			}
 		}
 		for i := 0; i < nRandNum/workers && !f.stop(); i++ {
